@@ -422,3 +422,10 @@ def r6(cx):
         else:
             cx.violation(ck, "returned-seq", "%s: the sequence number returned to the caller (%s) or written to the header (%s) is not the pre-increment next_seq"
                          % (b.sp(bi, si), "ok" if r_field else "differs", "ok" if e_field else "differs"), [b.sp(bi, si), b.sp(encs[0])])
+
+
+@rule("C05", "R7", "the highest sequence number stays recoverable: callers pass truncate_before the flushed mark, or mark + 1 only when that mark is "
+      "already on disk (otherwise a crash between truncation and persisting the mark lets numbering restart below acknowledged entries)")
+def r7(cx):
+    from rules.C01 import truncate_callers
+    truncate_callers(cx)
